@@ -37,8 +37,8 @@ def _generate(api):
         raise api.GenError("%s: run_cli: `args.len() < N` not found" % rel)
     min_args = int(m.group(1))
     main = api.fn_body(src, "main", rel)
-    if not re.search(r"Err\s*\(\s*\w+\s*\)\s*=>", main) or "run_cli()" not in main:
-        raise api.GenError("%s: main: `match run_cli() { Err(..) => ...` not found" % rel)
+    if "Err(" not in main or "run_cli()" not in main:
+        raise api.GenError("%s: main: an Err(..) test of run_cli() not found" % rel)
     ex = re.findall(r"\bexit\s*\(\s*(-?\d+)\s*\)", main)
     if len(ex) != 1 or len(re.findall(r"\bexit\s*\(", src)) != 1:
         raise api.GenError("%s: expected exactly one exit(<literal>), in main" % rel)
